@@ -1,7 +1,9 @@
 \* C20: exhaustive check of every abstract instance of every slice
 CONSTANT Slices = {"err", "opts", "upd_enum", "upd_err", "upd_pres", "op_enum", "op_head", "op_det", "op_combo", "out", "inp", "decode", "factory"}
+CONSTANT Fixed = TRUE        \* default; checks/c20.py substitutes spec/variant.json "WireFixed"
 INIT Init
 NEXT Next
+INVARIANT Inv_Lossless
 INVARIANT Inv_LosslessOrKnown
 INVARIANT Inv_UpdateCarriesOptions
 INVARIANT Inv_KnownExact
